@@ -342,6 +342,8 @@ def shared(ctx):
     # the synthesized second coin of a withdrawal sits at index 1: it is a fresh id (and insert_coin's count step applies) only because the
     # selection admits withdrawals with exactly one output (C15.R1)
     core.import_rules(ctx, [c15.r1_selection_atoms, c15.r5_only_selected], "X15")
+    from rules.props import c06
+    core.import_rules(ctx, [c06.r5_activation_table], "X06")          # the counts exist from TIP-906 on: the stages must ask that predicate, and it must test that height
 
 
 RULES = [r1_protocol, r2_confinement, r3_flag_provenance, r4_activation, shared]
